@@ -231,10 +231,22 @@ func (p *C13) Check(sc *scen.Scenario, run *orch.Run, env *orch.Env) []orch.Viol
 	warnSel, _ := ws.Select(reg, model.Warn)
 	warnAdmitted := reg.Admitted(level, model.Warn, false) == model.Admit
 	// faults that are still pending when the tail starts would make the tail a faulty phase: find the first fault-free tail op
+	// With several caller tasks the writes are attributed to calls by content, not by the call during which they
+	// were observed: the statement does not say which goroutine hands a record (or the diagnostic for it) to the
+	// destinations, only how many of them there may be per failing call.
+	attributed := map[string][]scen.Event{}
+	if len(sc.Tasks) > 1 {
+		attributed = c13Attribute(sc, ops, warnSel)
+	}
 	check := func(ph string, task, idx int, op *scen.Op) {
 		o := ops[opKey(ph, task, idx+1)]
 		if o == nil || op.Op != "log" {
 			return
+		}
+		if ws, ok := attributed[opKey(ph, task, idx+1)]; ok {
+			c := *o
+			c.Writes = ws
+			o = &c
 		}
 		mode := "seq"
 		if len(sc.Tasks) > 1 {
@@ -365,6 +377,92 @@ func (p *C13) Check(sc *scen.Scenario, run *orch.Run, env *orch.Env) []orch.Viol
 		check("tail", 0, i, &sc.Tail[i])
 	}
 	return dedupe(out)
+}
+
+// c13Attribute distributes the writes observed while the caller tasks ran: a payload that carries the token of
+// exactly one call is an attempt to deliver that call's record; a payload without a call token is a diagnostic and
+// goes to a call that had a failed attempt and has not got one for that destination yet (the call during which it
+// was seen first), or stays where it was seen.
+func c13Attribute(sc *scen.Scenario, ops map[string]*opObs, warnSel []int) map[string][]scen.Event {
+	out := map[string][]scen.Event{}
+	owner := map[string]string{}
+	var order []string
+	lvlOf := map[string]int{}
+	for _, t := range sc.Tasks {
+		for i := range t.Ops {
+			k := opKey("task", t.ID, i+1)
+			out[k] = nil
+			if t.Ops[i].Op == "log" && t.Ops[i].Tok != "" {
+				owner[t.Ops[i].Tok] = k
+				order = append(order, k)
+				lvlOf[k] = t.Ops[i].Lvl
+			}
+		}
+	}
+	type loose struct {
+		e    scen.Event
+		from string
+	}
+	var pool []loose
+	for _, t := range sc.Tasks {
+		for i := range t.Ops {
+			k := opKey("task", t.ID, i+1)
+			o := ops[k]
+			if o == nil {
+				continue
+			}
+			for _, e := range o.Writes {
+				found := map[string]bool{}
+				for _, m := range tokRe.FindAllString(string(e.P), -1) {
+					found[m] = true
+				}
+				to := k
+				if len(found) == 1 {
+					for m := range found {
+						if ok, has := owner[m]; has {
+							to = ok
+						}
+					}
+				}
+				if len(found) == 0 {
+					pool = append(pool, loose{e, k})
+					continue
+				}
+				out[to] = append(out[to], e)
+			}
+		}
+	}
+	need := map[string]map[int]int{}
+	for _, k := range order {
+		if lvlOf[k] == model.Warn {
+			continue
+		}
+		for _, e := range out[k] {
+			if e.Err != "" || e.F == "short" {
+				need[k] = map[int]int{}
+				for _, w := range warnSel {
+					need[k][w]++
+				}
+				break
+			}
+		}
+	}
+	for _, l := range pool {
+		to := l.from
+		if need[to][l.e.W] == 0 {
+			for _, k := range order {
+				if need[k][l.e.W] > 0 {
+					to = k
+					break
+				}
+			}
+		}
+		if need[to][l.e.W] > 0 {
+			need[to][l.e.W]--
+		}
+		out[to] = append(out[to], l.e)
+	}
+	return out
 }
 
 func keysOfInt(m map[int]int) map[int]bool {
